@@ -47,8 +47,23 @@ zz = gsum(2)
 def gen_case(rng, k):
     src = gen_prog.PRELUDE + (GENS if rng.random() < 0.5 else "") + gen_prog.gen_program(random.Random(rng.random()), rng.choice(["core", "wide"]), nstmts=rng.choice([2, 3]))
     tp = rng.choice([None, None, "self", "local", "selective"])
-    return {"src": src, "src_mid": "install()\n" + src, "events": SUBSETS[k % len(SUBSETS)], "third_party": tp,
-            "install": (rng.choice(["pre", "pre", "mid"]) if tp else None)}
+    install = rng.choice(["pre", "pre", "mid", "hist", "hist"]) if tp else None
+    c = {"src": src, "src_mid": "install()\n" + src, "events": SUBSETS[k % len(SUBSETS)], "third_party": tp, "install": install}
+    if install == "hist":
+        # a history of sys.settrace(A) / sys.settrace(B) / sys.settrace(None) calls made by the user program itself, between its
+        # top-level statements, optionally with A already in place when the context is entered
+        import ast
+        starts = [n.lineno for n in ast.parse(src).body]
+        first = len(ast.parse(gen_prog.PRELUDE).body)
+        slots = starts[first:] + [len(src.splitlines()) + 1]
+        steps = sorted(((rng.choice(slots), rng.choice(["A", "B", "off", "off"])) for _ in range(rng.choice([1, 2, 3, 4]))), key=lambda x: x[0])
+        lines = src.splitlines()
+        for ln, what in reversed(steps):
+            lines.insert(ln - 1, "tp_step(%r)" % what)
+        c["src_mid"] = "\n".join(lines) + "\n"
+        c["steps"] = [w for _, w in steps]
+        c["pre"] = rng.choice([None, "A"])
+    return c
 
 
 def run_impl(cases):
@@ -82,7 +97,11 @@ def oracle_case(c, r):
             i = next((j for j, (x, y) in enumerate(zip(a, b)) if x != y), min(len(a), len(b)))
             return {"what": "third-party (%s, installed %s) trace function received different events with pyccolo (%d vs %d), first difference at %d"
                             % (c["third_party"], c["install"], len(a), len(b), i), "expected_at": a[i:i + 3], "observed_at": b[i:i + 3], "kind": "third-party"}
-        if r["traced"]["tp_in_place_after"] is not True:
+        if c["install"] == "hist":
+            if r["traced"]["tp_in_place_after"] != r["plain"]["tp_in_place_after"]:
+                return {"what": "after the history %s (pre-installed: %s) sys.gettrace() reports %s once the context is over; without pyccolo: %s"
+                                % (c["steps"], c["pre"], r["traced"]["tp_in_place_after"], r["plain"]["tp_in_place_after"]), "kind": "after"}
+        elif r["traced"]["tp_in_place_after"] is not True:
             return {"what": "the third-party trace function is not the one in place afterwards", "kind": "after"}
     elif r["traced"]["tp_in_place_after"] is not True:
         return {"what": "a trace function is left installed afterwards", "kind": "after"}
@@ -144,7 +163,8 @@ def coq_cases_file(rows):
 def run(ctx, model_ok):
     rng = ctx.rng
     n = 90 if ctx.tier == "quick" else 900
-    cases = [gen_case(rng, k) for k in range(n)]
+    cases = [dict(r) for r in getattr(ctx, "known_replays", []) + getattr(ctx, "fixed_replays", []) if "src_mid" in r]
+    cases += [gen_case(rng, k) for k in range(n)]
     impl = run_impl(cases)
     failures = []
     for c, r in zip(cases, impl):
@@ -158,7 +178,7 @@ def run(ctx, model_ok):
     if model_ok:
         rows, idx = [], []
         for i, (c, r) in enumerate(zip(cases, impl)):
-            if "crash" in r or c["install"] == "mid":
+            if "crash" in r or c["install"] in ("mid", "hist"):
                 continue
             names = {}
 
@@ -201,7 +221,8 @@ def run(ctx, model_ok):
         "rule": "generated programs (prelude with helper functions and a context manager, optionally generators + recursion raising through frames, then "
                 "2-3 generated statements with calls, loops, try/except, raises) x all 15 non-empty subsets of {call,line,return,exception} in rotation x "
                 "{no third-party, returns itself, returns a distinct local function, declines frames named g*} x {installed before, installed mid-run by "
-                "user code}; every case has >= 60 interpreter events",
+                "user code, a history of 1-4 sys.settrace(A) / sys.settrace(B) / sys.settrace(None) calls between the program's top-level statements with or without A "
+                "pre-installed (oracle: logs of A and B and sys.gettrace() afterwards equal the run without pyccolo)}; every case has >= 60 interpreter events",
         "samples": [{k: cases[0][k] for k in ("events", "third_party", "install")}], "traces_validated": validated,
         "distribution": {"third_party/install": hist, "interpreter_events_recorded": nev,
                          "programs_ending_in_exception": sum(1 for r in impl if "plain" in r and "exc" in r["plain"]["out"])},
